@@ -219,9 +219,11 @@ def _slot(q: dict) -> str:
 # ---------------------------------------------------------------------------- R1
 
 
-def rule_r1(chk: Any, h: Harness) -> None:
+def rule_r1(chk: Any, h: Harness, fixture: bool = False) -> None:
     repo = chk.repo
     queries = _queries(h)
+    if fixture:  # the planted store only has to trip the rule: single-filter queries are enough
+        queries = [q for q in queries if sum(v is not None for v in q.values()) == 1]
     anchors = {k: (repo.cls(h.cfg.cls(k))[0], repo.methods(h.cfg.cls(k))) for k in h.cfg.kinds}
     for kind in h.cfg.kinds:
         for need in ("query", "delete", "update"):
@@ -282,13 +284,14 @@ def rule_r1(chk: Any, h: Harness) -> None:
                    slot not in bad_q, m=m, node=meths["query"], fn=meths["query"], instance=f"{kind}:query:{slot}", reason=bad_q.get(slot, ""))
             chk.ob("C24.R1", f"{kind} store: `delete` with at least one filter removes exactly the matching handlers and returns their number ({slot})",
                    slot not in bad_d, m=m, node=meths["delete"], fn=meths["delete"], instance=f"{kind}:delete:{slot}", reason=bad_d.get(slot, ""))
-    chk.floor("C24.R1", "query/delete evaluations against the oracle (2 stores)", total, len(h.cfg.kinds) * 2 * 250 if not broken else 0)
+    chk.floor("C24.R1", "query/delete evaluations against the oracle (2 stores)", total, len(h.cfg.kinds) * 2 * 250 if not (broken or fixture) else 0)
     chk.floor("C24.R1", "HandlerQuery filter fields enumerated from the dataclass", len(h.fields), 5)
     if not broken and len(h.cfg.kinds) == 2 and nolist.get("memory") != nolist.get("sqlite"):
         chk.observe(f"filter-less HandlerQuery(): memory store {nolist.get('memory')} vs SQLite store {nolist.get('sqlite')} over 8 handlers — `delete(HandlerQuery())` "
                     "removes everything in memory and nothing in SQLite. The statement only covers deletes with at least one filter, so this is not an obligation "
                     "(dynamic repro: triage/t_more.py::c24del).")
-    rule_r1_sequences(chk, h, anchors)
+    if not fixture:
+        rule_r1_sequences(chk, h, anchors)
 
 
 def _fmt(q: dict) -> str:
@@ -384,7 +387,7 @@ def _evict_ops(ids: list[str], ndel: int) -> list[tuple[str, str, str, Any]]:
     return ops
 
 
-def rule_r2_r3(chk: Any, h: Harness, depth: int) -> None:
+def rule_r2_r3(chk: Any, h: Harness, depth: int, fixture: bool = False) -> None:
     repo = chk.repo
     m = repo.cls(h.cfg.mem_cls)[0]
     meths = repo.methods(h.cfg.mem_cls)
@@ -479,9 +482,11 @@ def rule_r2_r3(chk: Any, h: Harness, depth: int) -> None:
     if depth > 3:
         plans[0] = (1, _evict_ops(["A", "B", "C"], 2), depth)
         plans[1] = (2, _evict_ops(["A", "B", "C"], 2), depth)
+    if fixture:
+        plans = plans[:2]
     for cap, ops, d in plans:
         _guard("C24.R2", "memory store eviction sequences", lambda: explore(cap, ops, d, h.store("memory", cap), {}, {}, [], 0))
-    chk.floor("C24.R2", "store states checked after an operation (max_completed in {0,1,2,None})", states, 900 if "raises" not in fails else 0)
+    chk.floor("C24.R2", "store states checked after an operation (max_completed in {0,1,2,None})", states, 900 if "raises" not in fails and not fixture else 0)
     evict = meths.get("_evict_oldest_completed", upd)
     shapes = {
         "plain": "histories in which no handler is upserted again after completing and no completed handler is deleted",
@@ -609,8 +614,8 @@ def planted_fixture(chk: Any) -> None:
     repo.by_rel[fm.rel] = fm
     scratch = Check("C24", repo, "quick", 0, quiet=True, write=False)
     h = _guard("C24", "planted fixture", lambda: Harness(repo, Cfg(f"{FIXTURE_MOD}:PlantedStore", None)))
-    rule_r1(scratch, h)
-    rule_r2_r3(scratch, h, 3)
+    rule_r1(scratch, h, fixture=True)
+    rule_r2_r3(scratch, h, 3, fixture=True)
     rule_r4(scratch, h)
     got = {(o.rule, o.key.rsplit("|", 1)[-1]) for o in scratch.violations()}
     missing = [(r.strip(), i) for r, i in FIXTURE_NEED.items() if (r.strip(), i) not in got]
